@@ -117,10 +117,14 @@ class PDDLFunction:
 
         :param old_to_new_param_names: the mapping of old parameter names to new parameter names.
         """
-        ordered_old_parameters = list(self.signature.keys())
-        for old_param_name in ordered_old_parameters:
-            new_param_name = old_to_new_param_names[old_param_name]
-            self.signature[new_param_name] = self.signature.pop(old_param_name)
+        # rename all parameters at once: renaming them one by one collapses maps whose new names
+        # overlap the old ones (e.g. a swap).
+        renamed_signature = {
+            old_to_new_param_names[old_param_name]: param_type
+            for old_param_name, param_type in self.signature.items()
+        }
+        self.signature.clear()
+        self.signature.update(renamed_signature)
 
     def __str__(self):
         signature_str_items = []
